@@ -52,6 +52,10 @@ func runC09(w *World, r *Report) {
 			roots = append(roots, f)
 		}
 	}
+	// component implementations shipped with the module that run inside nodes
+	if f := w.TryFn("components/prompt", "DefaultChatTemplate.Format"); f != nil {
+		roots = append(roots, f)
+	}
 	reach := w.reachableFrom(roots...)
 	compiled := compiledTypeSet(w)
 
